@@ -90,7 +90,9 @@ CHECKS['C13'] = ('3/C13', 'PinModel.calculate_temperatures with symbolic power, 
 CHECKS['C07'] = ('3/C07', 'Self-composition over the real step code: two copies of a region (shared symbolic derived state) carry fields and '
                  'powers related by the permutation that the published centroid coordinates induce for each rotation / the mirror image '
                  '(mirror copy: index tables and swirl donor column of a region constructed with the opposite wire direction); "result of '
-                 'copy 2 = permuted result of copy 1" is an SMT query per cell for coolant, bypass, duct walls, pin inputs and the six-node region.')
+                 'copy 2 = permuted result of copy 1" is an SMT query per cell for coolant, bypass, duct walls, pin inputs and the six-node region; '
+                 'core: a real gap step (three gap models) and a real Reactor.axial_step on a loading pattern and on the pattern turned by 60 degrees, '
+                 'symbolic states tied by the coordinate-induced permutations.')
 
 NOT_APPLICABLE = {
     'C16': ('No symbolic dimension for a solver: process schedules/multiprocessing/file output, bitwise IEEE determinism, and '
